@@ -109,10 +109,13 @@ def body(W, prog, mode):
     for a in agents:
         S.join(a)
     S.wait_quiescent()
+    # the window covers the concurrent phase only; a final disconnect from
+    # the driver (P1, P4) runs on the canonical schedule - disconnects that
+    # race with writers are the business of P2 and P3
+    S.window = False
     for op in final:
         do('M', op)
     S.wait_quiescent()
-    S.window = False
     # let a still-running networking thread see the end of the stream
     for s in W.servers:
         s.close()
@@ -132,6 +135,7 @@ def judge(W, S, conn, srv, prog, mode, results, errs, base, states):
               [('M', op) for op in final]
     disc = [(tid, op) for tid, op in all_ops if op[0] == 'disc'][0]
     disc_tag = '%s:disc:%s' % (disc[0], disc[1][1])
+    immediate = bool(disc[1][1])
     disc_call = idx[('call', disc_tag)]
     disc_ret = idx.get(('ret', disc_tag))
     if disc_ret is None:
@@ -165,7 +169,8 @@ def judge(W, S, conn, srv, prog, mode, results, errs, base, states):
                          % (msg[:8], chats.count(msg))))
     for msg, tag in handed.items():
         ret = idx.get(('ret', tag))
-        if ret is not None and ret < disc_call and msg not in chats:
+        if ret is not None and ret < disc_call and msg not in chats \
+                and not immediate:
             viol.append(('lost-packet',
                          'packet %s was handed to the connection before '
                          'disconnect() was called but never reached the '
@@ -192,8 +197,6 @@ def judge(W, S, conn, srv, prog, mode, results, errs, base, states):
         viol.append(('send-after-disconnect',
                      '%d bytes were sent after disconnect() returned'
                      % sum(len(e[3]) for e in sends_after)))
-    if disc[1][1]:      # immediate
-        pass
     if not srv.client_gone and disc_ret is not None:
         viol.append(('socket-not-closed', 'after disconnect() the server '
                      'does not see the connection closed'))
